@@ -162,7 +162,11 @@ func corruptOnce(t *rapid.T, c interface{}) (interface{}, string) {
 }
 
 var hostilePointers = []string{"", "/", "//", "/o", "/o/y", "/o/y/0", "/o/y/-", "/o/y/-1", "/o/y/2", "/o/y/99999999999999999999", "/o/y/01", "/o/y/1e0", "/o/y/+1",
-	"/arr/-", "/arr/-1", "/arr/3", "/arr/2", "/arr/2/new", "/arr/0", "/o/new", "/o/y/0", "/arr/2/in", "/arr/2/in/x", "/o/~", "/o/~2", "/~0", "/~1", "/o/y/", "/alsoKnownAs/0", "/alsoKnownAs/-1", "o/y", "#/o", "/o/y/0/0/0", "/missing/x"}
+	"/arr/-", "/arr/-1", "/arr/3", "/arr/2", "/arr/2/new", "/arr/0", "/o/new", "/o/y/0", "/arr/2/in", "/arr/2/in/x", "/o/~", "/o/~2", "/~0", "/~1", "/o/y/", "/alsoKnownAs/0", "/alsoKnownAs/-1", "o/y", "#/o", "/o/y/0/0/0", "/missing/x",
+	// an index that is none at a place other than the last one
+	"/arr/-1/in", "/arr/-2/in", "/arr/-3/in/x", "/o/y/-1/x", "/o/y/-2/0", "/arr/02/in", "/arr/+2/in", "/arr/-/in",
+	// ... behind text that is not part of a pointer at all
+	"x/arr/-1/in", "x/arr/-2/in", "#/o/y/-1/0", "x/o/y/-2", "arr:/arr/-1", "~1/arr/-3/in", "x/arr/-4/in", "x/alsoKnownAs/-1/x"}
 
 // respellIndices writes numeric reference tokens in ways some readers take for the same index (leading zeros, a sign).
 func respellIndices(t *rapid.T, ptr, label string) string {
@@ -197,7 +201,12 @@ func genHostileIetfPatch(t *rapid.T) map[string]interface{} {
 			case 1:
 				return float64(1)
 			default:
-				return respellIndices(t, rapid.SampledFrom(hostilePointers).Draw(t, l), l)
+				p := respellIndices(t, rapid.SampledFrom(hostilePointers).Draw(t, l), l)
+				if rapid.IntRange(0, 4).Draw(t, l+"-textInFront") == 0 {
+					// not a JSON pointer; the JSON patch library skips everything in front of the first '/'
+					p = rapid.SampledFrom([]string{"x", "#", " ", "~1", "~0", "%2F", ".."}).Draw(t, l+"-prefix") + p
+				}
+				return p
 			}
 		}
 		if (kind == "move" || kind == "copy") && rapid.IntRange(0, 2).Draw(t, "intoOwnSource") == 0 {
